@@ -7,13 +7,39 @@ warnings.simplefilter('ignore')
 DEPTH = {'quick': 2, 'thorough': 3}
 
 
+GIMPL_SHARDS = 8
+_GIMPL = None
+
+
+def gimpl_sentences():
+    """distinct token tuples of the production-driven sentences of the implementation grammar (vp/gimpl.py): every reachable production of the
+    compiled LR tables and every (production, child production) pair, each in its shortest context"""
+    global _GIMPL
+    if _GIMPL is None:
+        from . import gimpl
+        seen = set()
+        out = []
+        for _, toks in gimpl.sentences():
+            if toks not in seen:
+                seen.add(toks)
+                out.append(toks)
+        _GIMPL = out
+    return _GIMPL
+
+
 def shards_for(d, start='file', groups=None):
     sh = [p for p in gref.spine_shards(start) if gref.shard_min_cost(p) <= d]
+    if start == 'file':
+        sh += [('gimpl', k) for k in range(GIMPL_SHARDS)]
     return sh
 
 
 def sentences(path, d, start='file'):
-    """yield (tokens, cost) of one shard"""
+    """yield (tokens, cost) of one shard; the ('gimpl', k) pseudo-shards carry the production-driven sentences (reported as cost 1)"""
+    if isinstance(path, tuple) and len(path) == 2 and path[0] == 'gimpl':
+        for toks in gimpl_sentences()[path[1]::GIMPL_SHARDS]:
+            yield toks, 1
+        return
     e = gref.Enum()
     yield from e.gen(gref.N(start), d, path)
 
@@ -75,7 +101,7 @@ def text_hash(text):
 
 
 FSTR_LITERALS = ["'s'", "f'{a}'", "f'{a}{b}'", "f'{a:{w}}'", "f'{a!r:>{w}}x'", "f'''{a}\n{b}'''", "f'''\n{a}\n'''", "f'''{a:\n}'''", "'''\n'''", "f'{a=}'", "rf'{a}\\n'", "u'é'",
-                 "f'é{é}'", "f'{a:{w}.{p}}'"]
+                 "f'é{é}'", "f'{a:{w}.{p}}'", "f'\\101\\0{a}\\x41\\N{EM DASH}{b}'", 'f"{d[\'k\']} {b}"', "f'{a:\\x3e{w}}{b}'"]
 
 
 def fstring_product(n=3):
